@@ -8,9 +8,17 @@
    jval wire : (0) null | (1 b) | (2 z) | (3 id) | (4 (codes)) | (5 tup (items)) | (6 (((codes) j)..))
    env wire  : (xid_start_codes xid_continue_codes classes callables), classes = (((codes) (names..))..)
    dres wire : (0 pval) | (1 code) | (4)
-   line wire : (0 (toks)) with tok (0 n) | (1 q) | (2) ; (1 (codes)) quoted *)
+   line wire : (0 (toks)) with tok (0 n) | (1 q) | (2) ; (1 (codes)) quoted
+   STV (Model/StvFile.v, units 174-175):
+   uenv wire    : (((c isdigit dec isword (lower codes))..) (((codes) q)..))   dec = -1: not a decimal digit;
+                  a code point >= 128 that is not listed is no digit, no word character and lowers to itself
+   election wire: (votes sys cands seats output_method), votes = (((ids) w)..) with w = (0 q) | (1 (codes)),
+                  sys = (0) | (1 name ev) | (2 ev), name / seats = () | (x),
+                  ev = (0 unknown) | (1 dist retainer elim gregory qf mandatory) | (2 main tb) | (3 ev n),
+                  qf = (0 (codes)) | (1 n) | (2), tb = (0 simple inner) | (1 number_ranker) | (2) | (2 seed) | (3)
+   stv_loaded   : (votes name ev cands), votes = ((((codes) position withdrawn)..) q) *)
 From Coq Require Import ZArith QArith List Bool.
-From VL Require Import Prelude.Sx Model.Persist Model.BallotFile.
+From VL Require Import Prelude.Sx Model.Persist Model.BallotFile Model.StvFile.
 Import ListNotations.
 Open Scope Z_scope.
 
@@ -202,6 +210,143 @@ Definition sx_of_lres (r : lres loaded) : sx :=
   | Crash e => err e
   end.
 
+(* ---- STV files (character level) *)
+Definition uchar_of_sx (s : sx) : option (Z * (bool * Z * bool * str)) :=
+  match s with
+  | L [A c; dg; A dv; w; lo] =>
+      match as_bool dg, as_bool w, as_str lo with
+      | Some dg', Some w', Some lo' => Some (c, (dg', dv, w', lo'))
+      | _, _, _ => None
+      end
+  | _ => None
+  end.
+Definition uenv_of_sx (s : sx) : option uenv :=
+  match s with
+  | L [ucs; decs] =>
+      match as_listof uchar_of_sx ucs, as_listof (as_pair as_str as_Q) decs with
+      | Some t, Some d =>
+          let get := fun c => aget Z.eqb t c in
+          Some {| udec := fun c => match get c with Some (_, dv, _, _) => if dv <? 0 then None else Some dv | None => None end;
+                  udigit := fun c => match get c with Some (dg, _, _, _) => dg | None => false end;
+                  uword := fun c => match get c with Some (_, _, w, _) => w | None => false end;
+                  ulower := fun c => match get c with Some (_, _, _, lo) => lo | None => [c] end;
+                  dec_val := fun x => aget str_eqb d x |}
+      | _, _ => None
+      end
+  | _ => None
+  end.
+
+Definition weight_of_sx (s : sx) : option weight :=
+  match s with
+  | L [A 0; q] => option_map WQ (as_Q q)
+  | L [A 1; c] => option_map WDec (as_str c)
+  | _ => None
+  end.
+Definition qfun_of_sx (s : sx) : option qfun :=
+  match s with
+  | L [A 0; c] => option_map QNamed (as_str c)
+  | L [A 1; A n] => Some (QConst n)
+  | L [A 2] => Some QNameless
+  | _ => None
+  end.
+Fixpoint tbk_of_sx (s : sx) : option tbk :=
+  match s with
+  | L [A 0; b; i] => match as_bool b, tbk_of_sx i with Some b', Some i' => Some (TbPre b' i') | _, _ => None end
+  | L [A 1; b] => option_map TbOrder (as_bool b)
+  | L [A 2] => Some (TbSort None)
+  | L [A 2; A n] => Some (TbSort (Some n))
+  | L [A 3] => Some TbOther
+  | _ => None
+  end.
+Fixpoint ev_of_sx (s : sx) : option ev :=
+  match s with
+  | L [A 0; b] => option_map EvOther (as_bool b)
+  | L [A 1; d; r; A el; g; q; m] =>
+      match as_bool d, as_bool r, as_bool g, qfun_of_sx q, as_bool m with
+      | Some d', Some r', Some g', Some q', Some m' => Some (EvTV d' r' el g' q' m')
+      | _, _, _, _, _ => None
+      end
+  | L [A 2; m; t] => match ev_of_sx m, tbk_of_sx t with Some m', Some t' => Some (EvTie m' t') | _, _ => None end
+  | L [A 3; e; A n] => option_map (fun e' => EvFixed e' n) (ev_of_sx e)
+  | _ => None
+  end.
+Definition optstr_of_sx (s : sx) : option (option str) :=
+  match s with L [] => Some None | L [t] => option_map Some (as_str t) | _ => None end.
+Definition sysarg_of_sx (s : sx) : option sysarg :=
+  match s with
+  | L [A 0] => Some SysNone
+  | L [A 1; nm; e] => match optstr_of_sx nm, ev_of_sx e with Some n, Some e' => Some (SysVS n e') | _, _ => None end
+  | L [A 2; e] => option_map SysEv (ev_of_sx e)
+  | _ => None
+  end.
+Definition stv_election_of_sx (s : sx) : option stv_election :=
+  match s with
+  | L [votes; sys; cands; seats; om] =>
+      match as_listof (as_pair (as_listof as_pos) weight_of_sx) votes, sysarg_of_sx sys, as_listof cand_of_sx cands,
+            match seats with L [] => Some None | L [A n] => Some (Some n) | _ => None end, as_bool om with
+      | Some v, Some sy, Some c, Some se, Some o =>
+          Some {| e_votes := v; e_system := sy; e_cands := c; e_seats := se; e_output_method := o |}
+      | _, _, _, _, _ => None
+      end
+  | _ => None
+  end.
+
+Definition sx_of_qfun (q : qfun) : sx :=
+  match q with QNamed s => L [A 0; of_str s] | QConst n => L [A 1; A n] | QNameless => L [A 2] end.
+Fixpoint sx_of_tbk (t : tbk) : sx :=
+  match t with
+  | TbPre b i => L [A 0; of_bool b; sx_of_tbk i]
+  | TbOrder b => L [A 1; of_bool b]
+  | TbSort None => L [A 2]
+  | TbSort (Some n) => L [A 2; A n]
+  | TbOther => L [A 3]
+  end.
+Fixpoint sx_of_ev (e : ev) : sx :=
+  match e with
+  | EvOther b => L [A 0; of_bool b]
+  | EvTV d r el g q m => L [A 1; of_bool d; of_bool r; A el; of_bool g; sx_of_qfun q; of_bool m]
+  | EvTie m t => L [A 2; sx_of_ev m; sx_of_tbk t]
+  | EvFixed e' n => L [A 3; sx_of_ev e'; A n]
+  end.
+Definition sx_of_optstr (o : option str) : sx := match o with Some t => L [of_str t] | None => L [] end.
+Definition sx_of_stv_loaded (x : stv_loaded) : sx :=
+  let desc := fun p => match nth_error (l_pool x) (Z.to_nat (p - 1)) with
+                       | Some (nm, wd) => if 1 <=? p then L [of_str nm; A p; of_bool wd] else L []
+                       | None => L []
+                       end in
+  L [L (map (fun rw => L [L (map desc (fst rw)); of_Q (snd rw)]) (l_votes x));
+     sx_of_optstr (fst (l_system x)); sx_of_ev (snd (l_system x));
+     L (map (fun cw => L [of_str (fst cw); of_bool (snd cw)]) (l_cands x))].
+Definition sx_of_stv_lres (r : lres stv_loaded) : sx :=
+  match r with
+  | Ok x => ok (sx_of_stv_loaded x)
+  | ParseError => err E_PARSE
+  | Crash e => err e
+  end.
+
+(* what votelib.io.blt.load_lines answered on a suffix of the lines (computed by the harness) *)
+Definition cname_of_sx (s : sx) : option cname :=
+  match s with
+  | L [A 0; c] => option_map Named (as_str c)
+  | L [A 1; A n] => Some (Numbered n)
+  | _ => None
+  end.
+Definition bloaded_of_sx (s : sx) : option (lres BallotFile.loaded) :=
+  match s with
+  | L [A 0; L [b; A seats; c; t]] =>
+      match as_listof (as_pair (as_listof as_Z) as_Q) b, as_listof (as_pair cname_of_sx as_bool) c, optstr_of_sx t with
+      | Some b', Some c', Some t' => Some (Ok (b', seats, c', t'))
+      | _, _, _ => None
+      end
+  | L [A 1; A e] => Some (if e =? E_PARSE then ParseError else Crash e)
+  | _ => None
+  end.
+Definition blt_table_of_sx (s : sx) : option (list str -> lres BallotFile.loaded) :=
+  match as_listof (as_pair as_Z bloaded_of_sx) s with
+  | Some t => Some (fun rest => match aget Z.eqb t (Z.of_nat (length rest)) with Some r => r | None => Crash E_OTHER end)
+  | None => None
+  end.
+
 Definition u_c19 (k : Z) (a : sx) : sx :=
   match k with
   | 0 =>   (* (env value) -> saving, then loading directly and through JSON text *)
@@ -253,5 +398,34 @@ Definition u_c19 (k : Z) (a : sx) : sx :=
           end
       | _ => bad_input
       end
+  | 4 =>   (* (legacy uenv election) -> STV text written, what loading it gives, what is expected, wf *)
+      match a with
+      | L [lg; e; el] =>
+          match as_bool lg, uenv_of_sx e, stv_election_of_sx el with
+          | Some lg', Some E, Some x =>
+              match stv_dump_lines E lg' x with
+              | WRefuse => L [A 5]
+              | WCrash c => err c
+              | WOk ls =>
+                  ok (L [L (map of_str ls);
+                         sx_of_stv_lres (stv_loads E lg' (fun _ => ParseError) (dumps_text ls));
+                         match stv_expected E x with Some y => L [sx_of_stv_loaded y] | None => L [] end;
+                         of_bool (stv_wf E x)])
+              end
+          | _, _, _ => bad_input
+          end
+      | _ => bad_input
+      end
+  | 5 =>   (* (legacy uenv blt-table lines) -> stv load_lines *)
+      match a with
+      | L [lg; e; bt; ls] =>
+          match as_bool lg, uenv_of_sx e, blt_table_of_sx bt, as_listof as_str ls with
+          | Some lg', Some E, Some bl, Some ls' => sx_of_stv_lres (stv_load_lines E lg' bl ls')
+          | _, _, _, _ => bad_input
+          end
+      | _ => bad_input
+      end
+  | 6 =>   (* the closed tables of Model/StvFile.v: white space, quota registry, quotas the writer supports *)
+      ok (L [L (map A spaces); L (map of_str quota_names); L (map of_str supported_quotas)])
   | _ => bad_input
   end.
